@@ -564,9 +564,9 @@ func genC25(g *Gen, tier string, w *bufio.Writer) {
 		c25Both(w, fields, [][]octosql.Value{row})
 	}
 	// 5. through eager.OutputPrinter (records with retraction flags, a watermark in between)
-	n = 150
+	n = 40
 	if thorough {
-		n = 3000
+		n = 1000
 	}
 	for i := 0; i < n; i++ {
 		k := 1 + g.Intn(3)
